@@ -3,8 +3,12 @@
 mod engine;
 mod props;
 mod refcrypto;
+mod refcodec;
+mod reffont;
 mod refpdf;
+mod refpng;
 mod reftab;
+mod reftab_cmap;
 
 use engine::{Ctx, Tier};
 use serde_json::Value;
@@ -74,6 +78,13 @@ fn main() {
             for d in props::all() {
                 println!("{}", d.id);
             }
+        }
+        "describe" => {
+            let v: Vec<Value> = props::all()
+                .into_iter()
+                .map(|d| serde_json::json!({"id": d.id, "level": d.level, "rule": d.rule, "assumptions": d.assumptions, "trusted_base": d.trusted_base}))
+                .collect();
+            println!("{}", serde_json::to_string_pretty(&v).unwrap());
         }
         "worker" => {
             props::worker_main(&args[2..]);
